@@ -26,6 +26,10 @@ def quic_part(ctx, drv, prop):
     ctx.exhaustive("QuicXport_MC", "QuicXport_live", timeout=600, workers=4)
     if not ctx.quick:
         ctx.exhaustive("QuicXport_MC", "QuicXport_thorough", timeout=3000)
+    # unbounded: the safety core (only the shared connection is live, single flight, nothing open after Close
+    # incl. late dials) is proved with TLAPS for any number of exchanges and connections
+    n = vf.tlapm("QuicXportProof", deps=("QuicXport",))
+    ctx.extra["tlaps_obligations_proved"] = n
     for cfg, (want, p) in QUIC_BUGS.items():
         if p != prop:
             continue
